@@ -214,6 +214,19 @@ pub fn cases() -> Vec<Pair> {
         let _ = i.values(row);
         both(&mut out, &format!("insert refused row {k}"), &i, "INSERT INTO \"k\" (\"id\", \"n\") VALUES (50, 1)", true);
     }
+    // .. and so is a SELECT source with fewer / more expressions than columns: the statement keeps what it had (here: its rows)
+    for (k, n) in [(0usize, 1usize), (1, 3)] {
+        let mut i = Query::insert(); i.into_table(a("k")).columns([a("id"), a("n")]).values_panic([50.into(), 1.into()]);
+        let mut q = Query::select(); for x in 0..n { q.expr(Expr::val(70 + x as i32)); }
+        let _ = i.select_from(q);
+        both(&mut out, &format!("insert refused select source {k}"), &i, "INSERT INTO \"k\" (\"id\", \"n\") VALUES (50, 1)", true);
+    }
+    // a window builder emptied by take() starts over: nothing of the first window (partition, order, frame) reaches the second
+    let mut w = WindowStatement::partition_by(a("g")); w.order_by(a("id"), Order::Asc).frame_start(FrameType::Rows, Frame::UnboundedPreceding);
+    let _first = w.take();
+    w.add_partition_by(SimpleExpr::from(c("g")));
+    let s = Query::select().column(a("id")).expr_window_as(c("v").sum(), w.take(), a("tot")).from(a("t")).order_by(a("id"), Order::Asc).to_owned();
+    both(&mut out, "state window take then reuse", &s, "SELECT \"id\", SUM(\"v\") OVER (PARTITION BY \"g\") AS \"tot\" FROM \"t\" ORDER BY \"id\" ASC", true);
     // ---- INSERT
     for shape in 0..4 { for conflict in 0..7 { for ret in 0..3 {
         if shape == 3 && conflict != 0 { continue; }
@@ -269,8 +282,9 @@ pub fn cases() -> Vec<Pair> {
         if from { conds.push("\"u\".\"tid\" = \"t\".\"id\""); conds.push("\"u\".\"x\" <> 'q'"); }
         if wher { conds.push("\"t\".\"id\" > 1"); }
         if !conds.is_empty() { r += " WHERE "; r += &conds.join(" AND "); }
-        if order_limit { r += " ORDER BY \"id\" DESC LIMIT 2"; }
+        // SQLite's grammar (update-stmt-limited): [WHERE] [RETURNING] [ORDER BY] [LIMIT]
         if ret { r += " RETURNING \"id\", \"v\""; }
+        if order_limit { r += " ORDER BY \"id\" DESC LIMIT 2"; }
         both_p(&mut out, &format!("update mask={mask}"), &s, &r, false, !from && !order_limit && !ret);
     }
     // ---- DELETE
@@ -284,8 +298,9 @@ pub fn cases() -> Vec<Pair> {
         s.from_table(a("t"));
         let mut r = String::from("DELETE FROM \"t\"");
         if wher { r += " WHERE \"g\" IS NOT NULL AND \"v\" < 55"; }
-        if order_limit { r += " ORDER BY \"v\" DESC LIMIT 2"; }
+        // SQLite's grammar (delete-stmt-limited): [WHERE] [RETURNING] [ORDER BY] [LIMIT]
         if ret { r += " RETURNING \"id\""; }
+        if order_limit { r += " ORDER BY \"v\" DESC LIMIT 2"; }
         both_p(&mut out, &format!("delete mask={mask}"), &s, &r, false, !order_limit && !ret);
     }
     out
